@@ -13,7 +13,7 @@
     /repo at every run (Gen/C36Gen.v, C36_tie), [v = Truncating] as shipped. *)
 From Coq Require Import List String ZArith Bool.
 From RV Require Import Model.Migrate Model.MigrateChain Proofs.MigrateBase Proofs.MigratePres
-  Proofs.MigrateChainThm Proofs.MigrateWitness Proofs.MigrateExtra.
+  Proofs.MigrateChainThm Proofs.MigrateWitness Proofs.MigrateSchema Proofs.MigrateExtra.
 Import ListNotations.
 Open Scope string_scope.
 Open Scope list_scope.
@@ -88,13 +88,21 @@ Theorem C36_upgraded_schema_is_latest : forall v e n d d',
   schema_of d' = latest_schema.
 Proof. exact upgrade_schema_latest. Qed.
 
-(** The upgrade cannot fail on a database whose jobs form a forest and whose task names are
-    valid identifiers (what redun records). *)
-Theorem C36_upgrade_total : forall v e n d,
+(** From every historical schema an upgrade can only fail for a reason in the *data*: a NOT NULL
+    violation (a job whose parent chain reaches no root job -> execution_id stays NULL; a job
+    without start_time) or a recorded task name that Task._validate rejects.  No schema-level
+    failure (missing/duplicate table or column, unknown revision) is possible.
+    (* NOT PROVED: totality -- for every database whose jobs form a forest (each parent chain ends,
+       within [length jobs] steps, in a job with parent_id NULL), whose job.start_time are
+       timestamps and whose task names match ^[A-Za-z_][A-Za-z_0-9]*$ (namespace likewise with
+       dots), [exists d', upgrade e (chain v) db_versions d = Ok d'].  It needs the invariants of
+       the job/execution tables carried through all ~60 operations; the implementation oracle
+       upgrades generated forests from every version instead. *) *)
+Theorem C36_upgrade_failure_modes_partial : forall v e n d x,
   e_dialect e = Sqlite -> (n <= List.length (chain v))%nat ->
-  same_schema_as_built e v n d -> well_formed d ->
-  exists d', upgrade e (chain v) db_versions d = Ok d'.
-Proof. exact upgrade_total. Qed.
+  same_schema_as_built e v n d ->
+  upgrade e (chain v) db_versions d = Err x -> data_error x.
+Proof. exact upgrade_failure_modes. Qed.
 
 (** Non-vacuity: a populated prototype-schema (1.0) database upgrades through all ten later
     revisions; it crosses every data migration; two companion values and one stub execution appear. *)
@@ -120,5 +128,5 @@ Print Assumptions C36_holds_fixed.
 Print Assumptions C36_execution_id_backfilled.
 Print Assumptions C36_upgraded_is_compatible.
 Print Assumptions C36_upgraded_schema_is_latest.
-Print Assumptions C36_upgrade_total.
+Print Assumptions C36_upgrade_failure_modes_partial.
 Print Assumptions C36_nonvacuous.
